@@ -233,8 +233,12 @@ class WebsocketSession(object):
             # Get the write lock, so we can be certain data sending
             # in another thread is sent.
             with self._lock:
-                self._sock.shutdown(socket.SHUT_RDWR)
-                self._sock.close()
+                try:
+                    self._sock.shutdown(socket.SHUT_RDWR)
+                finally:
+                    # shutdown fails if the peer has reset the connection,
+                    # the descriptor must be released regardless
+                    self._sock.close()
         except socket.error:
             # Socket is already closed, just a no-op
             pass
